@@ -148,10 +148,14 @@ func genSlots(r *simcore.Rand, n int) []Slot {
 			pl := []int{1, r.Range(1, 6), r.Range(10, 31)}[r.Intn(3)]
 			copy(h[:pl], o[:pl])
 		}
-		if seen[string(h)] {
+		// slot hashes of one account differ within their first 63 nibbles (keccak): a
+		// storage leaf at inner depth 64 has sync path length 128, which trie.Sync rules out
+		// ("depth >= 128 will never happen": its priority int64(128)<<56 overflows)
+		if seen[string(h)] || seen[k63(h)] {
 			continue
 		}
 		seen[string(h)] = true
+		seen[k63(h)] = true
 		v := r.Bytes(r.Range(1, 32))
 		if v[0] == 0 {
 			v[0] = 1
